@@ -596,16 +596,37 @@ def rows_of(dump):
     return {str(r['uid']): (r['object_type'], r['owner'], r['operation_policy_name']) for r in dump.get('managed_objects', [])}
 
 
-def c_obj(u, row):
-    return '{| o_uid := %s; o_type := %s; o_owner := %s; o_pol := %s |}' % (cp.string(u), cp.z(row[0]), c_user(row[1]), cp.string(row[2]))
+def content_of(states, u):
+    """abstract content of object u: one (table, value id) pair per table of the data store that has rows for it; the value
+    id is a digest of the object's canonical rows there (see object_states: shared rows are resolved to their content)"""
+    import hashlib
+    kinds = {}
+    for t, v in states.get(u, ()):
+        # the object's own rows (managed_objects and the class tables keyed by uid) form one kind, every table of
+        # multi-valued attributes (names, object groups, application specific information) a kind of its own
+        kind = CONTENT_KINDS.get(t, 'row')
+        kinds.setdefault(kind, []).append((t, v))
+    return [(k, hashlib.md5(repr(sorted(v, key=repr)).encode()).hexdigest()[:8]) for k, v in sorted(kinds.items())]
 
 
-def c_request(it, obs_ok, new, match, each_ok=()):
-    return ('{| r_op := %s; r_uid := %s; r_uids := %s; r_each_ok := %s; r_wrap := %s; r_pre_ok := %s; r_post_ok := %s; r_match := %s; r_new := %s |}' % (
+CONTENT_KINDS = {'managed_object_names': 'names', 'object_group_map': 'groups', 'app_specific_info_map': 'asi'}
+
+
+def c_content(c):
+    return cp.lst(c, lambda kv: '(%s, %s)' % (cp.string(kv[0]), cp.string(kv[1])))
+
+
+def c_obj(u, row, content=()):
+    return '{| o_uid := %s; o_type := %s; o_owner := %s; o_pol := %s; o_content := %s |}' % (
+        cp.string(u), cp.z(row[0]), c_user(row[1]), cp.string(row[2]), c_content(list(content)))
+
+
+def c_request(it, obs_ok, new, match, each_ok=(), upd=None):
+    return ('{| r_op := %s; r_uid := %s; r_uids := %s; r_each_ok := %s; r_wrap := %s; r_pre_ok := %s; r_post_ok := %s; r_match := %s; r_upd := %s; r_new := %s |}' % (
         cp.z(KIND_OP[it['k']].value), cp.option(it.get('uid'), cp.string), cp.lst(it.get('uids', []), cp.string),
         cp.lst(list(each_ok), cp.boolean), cp.option(it.get('wrap'), cp.string), cp.boolean(not it.get('prefail')), cp.boolean(obs_ok),
-        cp.option(match, lambda l: cp.lst(l, cp.string)),
-        cp.lst(new, lambda n: '(%s, %s, %s)' % (cp.string(n[0]), cp.z(n[1]), cp.string(n[2])))))
+        cp.option(match, lambda l: cp.lst(l, cp.string)), cp.option(upd, c_content),
+        cp.lst(new, lambda n: '(%s, %s, %s, %s)' % (cp.string(n[0]), cp.z(n[1]), cp.string(n[2]), c_content(n[3] if len(n) > 3 else [])))))
 
 
 def new_objects(it, resp):
@@ -793,17 +814,29 @@ def run_history(ctx, P, steps, want_case=True, count=False, P_engine=None, trans
             if want_case or count:
                 rows_run = dict(rows0)
                 c_items, c_obs = [], []
+                st1 = object_states(dump1, links)
+                rows_end = rows_of(dump1)
+                ph_run = None
                 for k, it in enumerate(step['items']):
                     r = resp['items'][k] if k < len(resp['items']) else None
                     ok = r is not None and r['status'] == 'SUCCESS'
-                    new = new_objects(it, r) if ok else []
+                    # oracle inputs of the model: the content the data store holds AFTER THE REQUEST for the objects this item
+                    # created / whose attributes it wrote (a request is the unit of observation)
+                    new = [n + (content_of(st1, n[0]) if n[0] in rows_end else [],) for n in new_objects(it, r)] if ok else []
+                    upd = None
+                    if ok and it['k'] in ('activate', 'revoke', 'modify_attribute', 'delete_attribute', 'set_attribute'):
+                        pu = it.get('uid') if it.get('uid') else ph_run
+                        if pu is not None and pu in rows_end:
+                            upd = content_of(st1, pu)
+                    if new:
+                        ph_run = new[-1][0]
                     match = None
                     if it['k'] == 'locate' and it.get('type'):
                         match = sorted(u for u, row in rows_run.items() if row[0] == OT[it['type']].value)
                     for n in new:
                         rows_run[n[0]] = (n[1], step['user'], n[2])
                     each_ok = [not (u in rows_run and unsuitable(u, rows_run[u])) for u in it.get('uids', [])]
-                    c_items.append(c_request(it, ok, new, match, each_ok))
+                    c_items.append(c_request(it, ok, new, match, each_ok, upd))
                     if r is not None:
                         c_obs.append('{| ob_ok := %s; ob_reason := %s; ob_msg := %s; ob_ids := %s; ob_partial := %s |}' % (
                             cp.boolean(ok), cp.string(r['reason'] or ''), cp.string(r['message'] or ''),
@@ -820,7 +853,7 @@ def run_history(ctx, P, steps, want_case=True, count=False, P_engine=None, trans
                 q = '{| q_id := %s; q_cont := %s; q_items := %s |}' % (c_identity(step['user'], step['groups']), cp.boolean(bool(step.get('cont'))),
                                                                         '[' + '; '.join(c_items) + ']')
                 hsteps.append('(%s, [%s], [%s])' % (q, '; '.join(c_obs),
-                                                    '; '.join(c_obj(u, rows1[u]) for u in sorted(rows1, key=int))))
+                                                    '; '.join(c_obj(u, rows1[u], content_of(st1, u)) for u in sorted(rows1, key=int))))
             dump0 = dump1
     finally:
         eng.close()
@@ -1120,7 +1153,7 @@ def histories(ctx):
         metas.append({'history': label, 'policy_document': doc, 'steps': steps, 'observed': log})
         ctx.count('history.requests', len(steps))
         report_violations(ctx, viol, P, P_engine, doc, steps, state)
-    bad = ctx.run_cases('histories', HEADER_B, cases, 'check_history', shard=4,
+    bad = ctx.run_cases('histories', HEADER_B, cases, 'check_history', shard=2,
                         what='process_request/run of Policy/Access.v (policies = the policy DOCUMENT) vs KmipEngine.process_request (policies = the '
                              'document loaded by read_policy_from_file) on whole histories: outcome class, reason, message, Locate ids, '
                              '(uid, type, owner, policy) rows after every request')
@@ -1343,7 +1376,7 @@ def session_histories(ctx):
             ctx.count('session.unknown-user.refused')
     finally:
         eng.close()
-    bad = ctx.run_cases('session_histories', HEADER_B, cases, 'check_history', shard=4,
+    bad = ctx.run_cases('session_histories', HEADER_B, cases, 'check_history', shard=2,
                         what='the same comparator as `histories`, but every request travels through a real KmipSession (certificate CN + SLUGS plugin '
                              'answering per user: [G1], [G2], [], [GX], [G2,G1], no groups member; one history without plugin) and the model is run '
                              'with the identity (user, the group list the directory service returned)')
